@@ -3,7 +3,7 @@
 use crate::ops::Prog;
 use crate::report::{Failure, Report};
 use proptest::strategy::{BoxedStrategy, Strategy, ValueTree};
-use proptest::test_runner::{Config, RngAlgorithm, RngSeed, TestCaseError, TestError, TestRng, TestRunner};
+use proptest::test_runner::{Config, RngAlgorithm, TestCaseError, TestError, TestRng, TestRunner};
 use serde_json::{json, Value};
 use std::cell::RefCell;
 use std::fmt::Debug;
@@ -20,6 +20,8 @@ pub struct Cfg {
     pub only: Option<String>,
     pub out: String,
     pub replay: Option<String>,
+    /// parsed replay file: {"program":..,"salt":..,"case":..}
+    pub replay_case: Option<Value>,
     pub known: Vec<String>,
     pub threads: usize,
 }
@@ -82,17 +84,100 @@ impl From<String> for Bad {
     }
 }
 
+/// Cases are written to / read from replay files as JSON.
+pub trait Case: Debug + Clone + 'static {
+    fn to_json(&self) -> Value;
+    fn from_json(v: &Value) -> Option<Self>;
+}
+
+impl Case for Vec<Value> {
+    fn to_json(&self) -> Value {
+        Value::Array(self.clone())
+    }
+    fn from_json(v: &Value) -> Option<Self> {
+        v.as_array().cloned()
+    }
+}
+
+impl Case for Value {
+    fn to_json(&self) -> Value {
+        self.clone()
+    }
+    fn from_json(v: &Value) -> Option<Self> {
+        Some(v.clone())
+    }
+}
+
+impl<A: Case, B: Case> Case for (A, B) {
+    fn to_json(&self) -> Value {
+        json!([self.0.to_json(), self.1.to_json()])
+    }
+    fn from_json(v: &Value) -> Option<Self> {
+        let a = v.as_array()?;
+        Some((A::from_json(a.first()?)?, B::from_json(a.get(1)?)?))
+    }
+}
+
+impl<A: Case, B: Case, C: Case> Case for (A, B, C) {
+    fn to_json(&self) -> Value {
+        json!([self.0.to_json(), self.1.to_json(), self.2.to_json()])
+    }
+    fn from_json(v: &Value) -> Option<Self> {
+        let a = v.as_array()?;
+        Some((A::from_json(a.first()?)?, B::from_json(a.get(1)?)?, C::from_json(a.get(2)?)?))
+    }
+}
+
+fn record(rep: &mut Report, cfg: &Cfg, program: &str, salt: &str, case: Value, bad: Bad) {
+    match bad {
+        Bad::Violation { key, what, detail } => {
+            let known = cfg.known.iter().any(|k| *k == key);
+            rep.failures.push(Failure {
+                program: program.to_string(),
+                what,
+                key,
+                detail: json!({"salt": salt, "case": case, "detail": detail, "known": known}),
+            })
+        }
+        Bad::Harness(h) => rep.harness_errors.push(format!("{program}/{salt}: {h} case={case}")),
+    }
+}
+
 /// Run `cases` generated cases of `strat` through `f`; on failure proptest shrinks the
 /// case and the shrunk failure is recorded in the report.  Returns false on failure.
-pub fn run_cases<T: Debug + Clone + 'static>(
+///
+/// * Failures whose key is listed in `cfg.known` (known findings) are tolerated: the case
+///   is counted under `excluded_known`, the first one is recorded (flagged `known`) and the
+///   search goes on, so that a different violation is still found.
+/// * In replay mode only the saved case with a matching program / salt is evaluated.
+pub fn run_cases<T: Case>(
     cfg: &Cfg,
     program: &str,
     salt: &str,
     strat: BoxedStrategy<T>,
     rep: &mut Report,
-    to_json: impl Fn(&T) -> Value,
     f: impl Fn(&T, &Tally) -> Result<(), Bad>,
 ) -> bool {
+    if let Some(replay) = &cfg.replay_case {
+        if replay["program"].as_str() != Some(program) || replay["salt"].as_str() != Some(salt) {
+            return true;
+        }
+        let Some(case) = T::from_json(&replay["case"]) else {
+            rep.harness_errors.push(format!("{program}/{salt}: replay case does not decode"));
+            return false;
+        };
+        let cell = RefCell::new(Report::default());
+        let frozen = std::cell::Cell::new(true);
+        let tally = Tally { rep: &cell, frozen: &frozen };
+        rep.evaluations += 1;
+        return match f(&case, &tally) {
+            Ok(()) => true,
+            Err(bad) => {
+                record(rep, cfg, program, salt, case.to_json(), bad);
+                false
+            }
+        };
+    }
     let seed = seed_for(cfg, program, salt);
     let mut seed_bytes = [0u8; 32];
     seed_bytes[..8].copy_from_slice(&seed.to_le_bytes());
@@ -100,7 +185,6 @@ pub fn run_cases<T: Debug + Clone + 'static>(
     let config = Config {
         cases: cfg.cases,
         failure_persistence: None,
-        rng_seed: RngSeed::Fixed(seed),
         max_shrink_iters: 400,
         ..Config::default()
     };
@@ -108,6 +192,7 @@ pub fn run_cases<T: Debug + Clone + 'static>(
     let cell = RefCell::new(std::mem::take(rep));
     let frozen = std::cell::Cell::new(false);
     let last_bad: RefCell<Option<Bad>> = RefCell::new(None);
+    let known_hit: RefCell<Vec<(Value, Bad)>> = RefCell::new(vec![]);
     let evals = std::cell::Cell::new(0u64);
     let result = runner.run(&strat, |case| {
         let tally = Tally { rep: &cell, frozen: &frozen };
@@ -116,6 +201,14 @@ pub fn run_cases<T: Debug + Clone + 'static>(
         }
         match f(&case, &tally) {
             Ok(()) => Ok(()),
+            Err(Bad::Violation { key, what, detail }) if !frozen.get() && cfg.known.iter().any(|k| *k == key) => {
+                tally.class("excluded_known");
+                let mut kh = known_hit.borrow_mut();
+                if !kh.iter().any(|(_, b)| matches!(b, Bad::Violation { key: k2, .. } if *k2 == key)) {
+                    kh.push((case.to_json(), Bad::Violation { key, what, detail }));
+                }
+                Ok(())
+            }
             Err(bad) => {
                 frozen.set(true);
                 let msg = format!("{:?}", bad);
@@ -126,6 +219,9 @@ pub fn run_cases<T: Debug + Clone + 'static>(
     });
     *rep = cell.into_inner();
     rep.evaluations += evals.get();
+    for (case, bad) in known_hit.into_inner() {
+        record(rep, cfg, program, salt, case, bad);
+    }
     match result {
         Ok(()) => true,
         Err(TestError::Fail(_, shrunk)) => {
@@ -137,15 +233,7 @@ pub fn run_cases<T: Debug + Clone + 'static>(
                 Err(b) => b,
                 Ok(()) => last_bad.borrow().clone().unwrap_or(Bad::Harness("HARNESS: shrunk case passes".into())),
             };
-            match bad {
-                Bad::Violation { key, what, detail } => rep.failures.push(Failure {
-                    program: program.to_string(),
-                    what,
-                    key,
-                    detail: json!({"salt": salt, "case": to_json(&shrunk), "detail": detail}),
-                }),
-                Bad::Harness(h) => rep.harness_errors.push(format!("{program}/{salt}: {h} case={}", to_json(&shrunk))),
-            }
+            record(rep, cfg, program, salt, shrunk.to_json(), bad);
             false
         }
         Err(TestError::Abort(r)) => {
@@ -153,6 +241,24 @@ pub fn run_cases<T: Debug + Clone + 'static>(
             false
         }
     }
+}
+
+/// Record a failure found outside `run_cases` (fixed enumerations); honours known findings.
+/// Returns true if the run may continue (the failure is a known finding).
+pub fn fail_fixed(rep: &mut Report, cfg: &Cfg, program: &str, salt: &str, case: Value, bad: Bad) -> bool {
+    let known = matches!(&bad, Bad::Violation { key, .. } if cfg.known.iter().any(|k| k == key));
+    if known {
+        let key = match &bad {
+            Bad::Violation { key, .. } => key.clone(),
+            _ => unreachable!(),
+        };
+        rep.class("excluded_known");
+        if rep.failures.iter().any(|f| f.key == key && f.program == program) {
+            return true;
+        }
+    }
+    record(rep, cfg, program, salt, case, bad);
+    known
 }
 
 /// Draw one value from a strategy deterministically (used for per-program fixed samples).
@@ -186,6 +292,7 @@ pub fn parse_args() -> Cfg {
         only: None,
         out: "report.json".into(),
         replay: None,
+        replay_case: None,
         known: vec![],
         threads: 16,
     };
@@ -203,6 +310,12 @@ pub fn parse_args() -> Cfg {
             "--threads" => cfg.threads = val().parse().expect("threads"),
             other => panic!("unknown argument {other}"),
         }
+    }
+    if let Some(path) = &cfg.replay {
+        let text = std::fs::read_to_string(path).expect("replay file readable");
+        let v: Value = serde_json::from_str(&text).expect("replay file is JSON");
+        cfg.only = v["program"].as_str().map(|s| s.to_string());
+        cfg.replay_case = Some(v);
     }
     cfg
 }
